@@ -68,7 +68,7 @@ def check_expansion(rule, args, prev_ths):
         return None, '%s: %s' % (type(e).__name__, sstr(e)[:160])
 
 
-def judge(run, rule, args, prev_ths, where, origin):
+def _judge(run, rule, args, prev_ths, where, origin):
     macro = theory.global_macros[rule]
     ev, ev_err = eval_macro(macro, args, prev_ths)
     # is the expansion produced at all?  (the property speaks about inputs for which it is)
@@ -156,6 +156,34 @@ def library_steps(run, thys, r, per_thy, budget_s=None):
     return out
 
 
+class JudgeTimeout(BaseException):
+    """Not an Exception: must pass through the `except Exception` clauses that turn failures into verdicts."""
+
+
+def _judge_alarm(signum, frame):
+    raise JudgeTimeout()
+
+
+_T_GLOBAL = [None]
+
+
+def judge(run, rule, args, prev_ths, where, origin):
+    """One input judged; in the thorough tier under a time limit of its own (a single expansion can take minutes) --
+    a step that runs into the limit gets no verdict."""
+    if os.environ.get('VERIF_TIER', 'quick') == 'quick':
+        return _judge(run, rule, args, prev_ths, where, origin)
+    import signal
+    signal.signal(signal.SIGALRM, _judge_alarm)
+    signal.alarm(40)
+    try:
+        return _judge(run, rule, args, prev_ths, where, origin)
+    except JudgeTimeout:
+        run.stat('judge_time_limit:' + rule)
+        return 'time-limit'
+    finally:
+        signal.alarm(0)
+
+
 def all_items(prf):
     for it in prf.items:
         yield it.id, it
@@ -164,6 +192,8 @@ def all_items(prf):
 
 
 def run_check(tier, seed):
+    import time
+    t_global = time.time()
     run = Run(PROP, 'translation_validation', tier, seed)
     proof_stage(run, PROP)
     r = run.rng
@@ -179,7 +209,7 @@ def run_check(tier, seed):
     import time
     t_judge = time.time()
     for rule, args, prev_ths, where, ctx_info in steps:
-        if tier != 'quick' and time.time() - t_judge > 500:
+        if tier != 'quick' and (time.time() - t_judge > 500 or time.time() - t_global > 2400):
             run.stat('judging_budget_reached')
             break
         if ctx_info != cur_ctx:
@@ -219,7 +249,7 @@ def run_check(tier, seed):
     n_gen = 60 if tier == 'quick' else 600
     t_stage = time.time()
     for i in range(n_gen):
-        if tier != 'quick' and time.time() - t_stage > 250:
+        if tier != 'quick' and (time.time() - t_stage > 250 or time.time() - t_global > 2400):
             run.stat('generated_propositional_budget_reached_at:%d' % i)
             break
         ms = [r.choice(atoms) for _ in range(r.choice([1, 2, 3, 4]))]
@@ -245,7 +275,7 @@ def run_check(tier, seed):
         P = c10.Poly(r, TConst('nat'), None)
         t_stage = time.time()
         for i in range(n_gen // 2):
-            if tier != 'quick' and time.time() - t_stage > 120:
+            if tier != 'quick' and (time.time() - t_stage > 120 or time.time() - t_global > 2400):
                 run.stat('generated_nat_norm_budget_reached_at:%d' % i)
                 break
             e1 = P.expr(r.choice([1, 2, 3]))
@@ -271,7 +301,7 @@ def run_check(tier, seed):
         r.shuffle(pairs)
         t_stage = time.time()
         for m, n in pairs[:(150 if tier == 'quick' else 3000)]:
-            if tier != 'quick' and time.time() - t_stage > 200:
+            if tier != 'quick' and (time.time() - t_stage > 200 or time.time() - t_global > 2400):
                 run.stat('numeral_budget_reached')
                 break
             for rule, goal in (('nat_const_ineq', Not(Eq(Nat(m), Nat(n)))), ('nat_const_less_eq', _le(NatType)(Nat(m), Nat(n))),
@@ -324,7 +354,7 @@ def run_check(tier, seed):
             return b
         t_stage = time.time()
         for name, th in cands[:(25 if tier == 'quick' else 400)]:
-            if tier != 'quick' and time.time() - t_stage > 300:
+            if tier != 'quick' and (time.time() - t_stage > 300 or time.time() - t_global > 2400):
                 run.stat('higher_order_budget_reached_after:%d' % ho_done)
                 break
             tyinst = {v.name: nat for v in th.prop.get_stvars()}
@@ -385,7 +415,7 @@ def run_check(tier, seed):
         ns = [Var('m', NatType), Var('n', NatType)]
         t_stage = time.time()
         for k in range(24 if tier == 'quick' else 300):
-            if tier != 'quick' and time.time() - t_stage > 200:
+            if tier != 'quick' and (time.time() - t_stage > 200 or time.time() - t_global > 2400):
                 run.stat('auto_budget_reached_after:%d' % auto_done)
                 break
             name = r.choice(rules_)
